@@ -164,3 +164,29 @@ Definition c04_hints_consistent (P : nat) (hints : list (list nat)) : Prop :=
   length hints = P /\
   forall p, p < P -> NoDup (nth p hints []) /\ ~ In p (nth p hints []) /\
                      forall q, In q (nth p hints []) -> q < P /\ In p (nth q hints []).
+
+(* ---- processes that differ in passing one index-set object or two (twos[rank]) ----------------------------- *)
+(* the target set of a rank that passes one object is its source set; everything else is the same comprehension *)
+Definition c04_spec_lists2 (ign twop twoq fromSelf : bool) (p q : list c04_pair * list c04_pair) : c04_lists :=
+  (c04_join fromSelf (c04_published ign (fst p)) (c04_published ign (c04_tgt twoq q)),
+   c04_join fromSelf (c04_published ign (c04_tgt twop p)) (c04_published ign (fst q))).
+Definition c04_spec_entry_mixed (ign : bool) (twos : list bool) (incself : bool) (d : c04_decomp) (p q : nat) : c04_lists :=
+  let sp := nth p d ([], []) in
+  let sq := nth q d ([], []) in
+  let tp := nth p twos false in
+  if q =? p then
+    if tp then c04_spec_lists2 ign tp tp incself sp sp
+    else if incself then c04_spec_lists2 ign false false true sp sp
+    else ([], [])
+  else c04_spec_lists2 ign tp (nth q twos false) false sp sq.
+Definition c04_spec_rank_mixed (ign : bool) (twos : list bool) (incself : bool) (d : c04_decomp) (p : nat) : c04_rmap :=
+  flat_map (fun q => let x := c04_spec_entry_mixed ign twos incself d p q in
+                     if c04_lists_empty x then [] else [(q, x)])
+           (seq 0 (length d)).
+Definition c04_hints_ok_mixed (ign : bool) (twos : list bool) (incself : bool) (d : c04_decomp) (p : nat) (nb : list nat) : Prop :=
+  NoDup nb /\ (forall q, In q nb -> q < length d /\ q <> p) /\
+  (forall q, q < length d -> q <> p -> c04_lists_empty (c04_spec_entry_mixed ign twos incself d p q) = false -> In q nb).
+(* the property's "one entry per global index": every set holds a global index at most once (needed where the
+   two-list unpackIndices is used: it does not enumerate several copies) *)
+Definition c04_decomp_distinct (d : c04_decomp) : Prop :=
+  forall st, In st d -> c04_distinct (fst st) /\ c04_distinct (snd st).
